@@ -19,8 +19,9 @@ TRUSTED = [
 KNOWN_AUTOHASH = ("C09-autohash-leading-quotes: literal.Form.WithOptionalHashes().Quote(s) is not unquotable when s starts with two quote "
                   "characters not followed by '#' (witness String.WithOptionalHashes().Quote(`\"\"x`) == `#\"\"\"x\"#`: "
                   "ParseQuotes reads a multi-line opening; Coq: C09_unquote_quote_autohash_bad)")
-KNOWN_U32 = ("C09-unquote-U-int32: literal.Unquote accumulates \\U escapes in an int32: \"\\UFFFFFFFC\" panics (unreachable), "
-             "\"abc\\UFFFFFFFFdef\" is accepted as \"abc\" (Coq: C09_unquote_no_panic_refuted, spec layer rejects)")
+U32_WHAT = ("literal.Unquote panics or accepts a truncated string on a \\U escape >= 2^31: the behaviour of an int32 "
+            "accumulator (regression of fix unquote-U; former finding C09-unquote-U-int32); the model proves that Unquote never "
+            "panics (C09_unquote_impl_no_panic) and rejects every \\U value > 0x10FFFF; the literal is the failing input")
 
 
 def go_sanitize(b):
@@ -189,7 +190,7 @@ def run(ctx):
     mism = 0
     viol = 0
     samples = []
-    known_auto = known_u32 = 0
+    known_auto = 0
     xval_lits = []      # (index, model quote hex) for pass 2
     sanitize_selftest = 0
 
@@ -217,7 +218,7 @@ def run(ctx):
             mp = m.split(" ")
             if len(mp) != 3:
                 raise vlib.CheckFailure("model output malformed: " + m[:200])
-            mq, mi, ms = mp
+            mq, mi, _m32 = mp
             ip = i.split(" ")
             iq, ir = (ip[0], ip[1]) if len(ip) == 2 else ("", ip[0])
             expected = "ok:" + hexs(s if form[0] == "b" else go_sanitize(s))
@@ -263,19 +264,23 @@ def run(ctx):
             if len(samples) < 4 and new and len(c) < 300 and kinds[k] % 397 == 5:
                 samples.append({"case": c, "impl": i, "model": m})
         elif k == "U":
-            mi, ms = m.split(" ")
+            mi, m32 = m.split(" ")
             if new:
                 rk = i if i.startswith("err") or i == "panic" else "ok"
                 dist["unquote_results"][rk] = dist["unquote_results"].get(rk, 0) + 1
                 if i.startswith("ok:") and len(pc[1]) >= 8:
                     nontrivial += 1
-            if i != mi:
+            if i != mi and (i == "panic" or (i == m32 and mi != m32)):
+                # Unquote itself violates the property on this literal: a Go panic, or the
+                # int32 wrap-around of a \\U escape (accepted / truncated instead of rejected)
+                mism += 1
+                report({"kind": "unquote-panics-or-int32-wrap", "case": c, "literal_hex": pc[1], "impl": i, "model": mi,
+                        "int32_layer": m32, "what": U32_WHAT})
+            elif i != mi:
                 mism += 1
                 report({"kind": "impl-differs-from-proved-model", "case": c, "impl": i, "model": mi,
                         "what": "literal.Unquote(x) (value or error class) differs from the model's unquote on this literal text"},
                        no_input=True)
-            elif mi != ms:
-                known_u32 += 1
             if len(samples) < 7 and new and len(c) < 200 and kinds[k] % 499 == 7:
                 samples.append({"case": c, "impl": i, "model": m})
         else:
@@ -320,8 +325,6 @@ def run(ctx):
     lap("xcheck")
     if known_auto:
         ctx.known_finding(KNOWN_AUTOHASH)
-    if known_u32:
-        ctx.known_finding(KNOWN_U32)
 
     # ---- exploration: scanner / literal / parser agreement, parser totality ----
     exploration = {}
@@ -345,9 +348,7 @@ def run(ctx):
                                     "scanner-literal-parser disagreement); input_hex is the failing input"}
             report(viol_payload)
         for cls, info in sorted(ex.get("known_candidates", {}).items()):
-            if cls in ("unquote-U-escape-int32-overflow",):
-                ctx.known_finding(KNOWN_U32)
-            elif cls == "hash-string-content-starts-with-two-quotes":
+            if cls == "hash-string-content-starts-with-two-quotes":
                 ctx.known_finding(KNOWN_AUTOHASH)
             else:
                 ctx.known_finding("exploration class %s: %s (witness hex %s)" % (cls, info.get("what", "")[:300], info.get("witness_hex", "")))
@@ -402,7 +403,7 @@ def run(ctx):
         "corpus_cases": corpus_n,
         "input_distribution": dist,
         "cross_validation": {"impl_unquote_of_model_quote": xval, "quotes_compared_bytewise": kinds.get("Q", 0)},
-        "known_class_counts": {"autohash-leading-quotes": known_auto, "U-escape-int32": known_u32},
+        "known_class_counts": {"autohash-leading-quotes": known_auto, "U-escape-int32 (regression layer, must be 0)": 0},
         "sanitize_selftest_cases": sanitize_selftest,
         "vm_compute_crosscheck": xc,
         "mismatches": mism,
@@ -423,8 +424,9 @@ MANIFEST = {
             "undecodable byte becomes U+FFFD) otherwise -- except on one exactly characterised class where the tree under test "
             "fails (WithOptionalHashes on text starting with two quote characters; proved to fail, reported as known finding); "
             "requiredHashCount / singleLineHashCount are sufficient (no accidental closing delimiter or escape introducer); the "
-            "modelled Unquote never runs out of fuel and its specification layer never panics, while the implementation layer "
-            "(Go's int32 rune) provably panics on \\U escapes >= 2^31 (known finding). The model is tied to /repo by bytewise "
+            "modelled Unquote never runs out of fuel and never panics on ANY input (\\U escapes accumulate in a uint32 and every "
+            "value > 0x10FFFF is a syntax error; an int32 accumulator provably panics and is kept as regression layer, so that "
+            "a reappearance is reported as a violation with the literal). The model is tied to /repo by bytewise "
             "agreement of Quote, exact agreement of Unquote (value or error class) on valid and mutated literals, and "
             "cross-validation in both directions. Parser totality, AST position invariants and scanner/literal/parser agreement "
             "are explored directly on the implementation (not proved).",
